@@ -20,25 +20,43 @@ struct FakeCpu
     uint32_t l1_ecx = 0, l1_edx = 0, l7_ebx = 0, l7_ecx = 0, l71_eax = 0, l8_ecx = 0;
     uint32_t xcr0 = 0;
     long xgetbv_calls = 0;
+    // != 0: every bit of every CPUID register that is NOT one of the feature bits of the property (and not OSXSAVE) is
+    // filled with pseudo-random noise derived from this word: real CPUs set dozens of such bits (BITALG, VPOPCNTDQ,
+    // RDPID, the family/model fields of leaf 1 EAX, ...) and the detector must ignore all of them
+    uint64_t noise = 0;
 };
 static FakeCpu g_cpu;
+// bits owned by the enumeration (the detector's feature bits, the reserved probe bit, OSXSAVE): never touched by the noise
+static const uint32_t OWN_L1_ECX = (1u << 0) | (1u << 9) | (1u << 12) | (1u << 19) | (1u << 20) | (1u << 28) | (1u << 27);
+static const uint32_t OWN_L1_EDX = (1u << 26);
+static const uint32_t OWN_L7_EBX = (1u << 5) | (1u << 16) | (1u << 17) | (1u << 21) | (1u << 26) | (1u << 27) | (1u << 28) | (1u << 30);
+static const uint32_t OWN_L7_ECX = (1u << 1) | (1u << 6) | (1u << 11) | (1u << 31);
+static const uint32_t OWN_L71_EAX = (1u << 4);
+static const uint32_t OWN_L8_ECX = (1u << 16);
 static void fake_cpuid(int reg[4], int level, int count)
 {
-    reg[0] = reg[1] = reg[2] = reg[3] = 0;
+    uint32_t nz[4] = { 0, 0, 0, 0 };
+    if (g_cpu.noise)
+        for (int k = 0; k < 4; ++k)
+            nz[k] = (uint32_t)vh::mix(g_cpu.noise, ((uint64_t)(uint32_t)level << 8) ^ ((uint64_t)count << 4) ^ (uint64_t)k);
+    reg[0] = (int)nz[0];
+    reg[1] = (int)nz[1];
+    reg[2] = (int)nz[2];
+    reg[3] = (int)nz[3];
     if (level == 1)
     {
-        reg[2] = (int)g_cpu.l1_ecx;
-        reg[3] = (int)g_cpu.l1_edx;
+        reg[2] = (int)(g_cpu.l1_ecx | (nz[2] & ~OWN_L1_ECX));
+        reg[3] = (int)(g_cpu.l1_edx | (nz[3] & ~OWN_L1_EDX));
     }
     else if (level == 7 && count == 0)
     {
-        reg[1] = (int)g_cpu.l7_ebx;
-        reg[2] = (int)g_cpu.l7_ecx;
+        reg[1] = (int)(g_cpu.l7_ebx | (nz[1] & ~OWN_L7_EBX));
+        reg[2] = (int)(g_cpu.l7_ecx | (nz[2] & ~OWN_L7_ECX));
     }
     else if (level == 7 && count == 1)
-        reg[0] = (int)g_cpu.l71_eax;
+        reg[0] = (int)(g_cpu.l71_eax | (nz[0] & ~OWN_L71_EAX));
     else if ((unsigned)level == 0x80000001u)
-        reg[2] = (int)g_cpu.l8_ecx;
+        reg[2] = (int)(g_cpu.l8_ecx | (nz[2] & ~OWN_L8_ECX));
 }
 static uint32_t fake_xcr0()
 {
@@ -217,7 +235,7 @@ static std::string cfg_json(uint32_t feat, const OsState& os)
             s += (first ? "\"" : ",\"") + std::string(FEAT[i].name) + "\"";
             first = false;
         }
-    return s + "]";
+    return s + "],\"foreign_bit_noise\":\"" + hexv(g_cpu.noise) + "\"";
 }
 
 static void detection(uint64_t seed)
@@ -244,6 +262,12 @@ static void detection(uint64_t seed)
         for (uint32_t feat = 0; feat < (1u << 21); feat += step)
         {
             set_features(feat);
+            // half of the configurations carry noise in every foreign bit (chosen by a hash of the configuration, so each
+            // feature-bit pattern is seen both clean and noisy across the OS states and seeds)
+            {
+                uint64_t h = vh::mix(ctx().seed, ((uint64_t)(&os - OSSTATES) << 32) | feat);
+                g_cpu.noise = (h & 1) ? (h | 2) : 0;
+            }
             g_cpu.xgetbv_calls = 0;
             mark_case("detect", os.name, &g_cpu, sizeof g_cpu);
             xs::detail::supported_arch sa = xs::available_architectures();
@@ -319,17 +343,44 @@ struct index_in<A, xs::arch_list<B, As...>> : std::integral_constant<int, 1 + in
 {
 };
 
+// A copyable and movable argument that counts how it travelled: an rvalue argument of dispatch must reach the
+// functor by moves only, an lvalue argument by (at least) one copy with the source left intact.  (A move-only type
+// would turn a forwarding defect into a compile error of this unit, i.e. an inconclusive run instead of a witness.)
+struct Probe
+{
+    int v;
+    int* copies;
+    int* moves;
+    bool moved_from = false;
+    Probe(int x, int* c, int* m)
+        : v(x), copies(c), moves(m)
+    {
+    }
+    Probe(const Probe& o)
+        : v(o.v), copies(o.copies), moves(o.moves)
+    {
+        ++*copies;
+    }
+    Probe(Probe&& o) noexcept
+        : v(o.v), copies(o.copies), moves(o.moves)
+    {
+        ++*moves;
+        o.moved_from = true;
+        o.v = -1;
+    }
+};
+
 struct Recorder
 {
     int* calls;
     int* which; // index in all_x86_architectures of the tag received
     template <class A>
-    long operator()(A, int& lv, std::unique_ptr<int> mv, const std::string& s, double d) const
+    long operator()(A, int& lv, Probe mv, Probe keep, const std::string& s, double d) const
     {
         ++*calls;
         *which = index_in<A, X86>::value;
         lv += 7;                     // lvalue reference reaches the caller's object
-        return 100000 + *mv * 100 + (long)s.size() * 10 + (long)d + index_in<A, X86>::value * 1000000L;
+        return 100000 + mv.v * 100 + (keep.v - 17) + (long)s.size() * 10 + (long)d + index_in<A, X86>::value * 1000000L;
     }
 };
 
@@ -350,6 +401,7 @@ static void run_list(xs::arch_list<As...>, OpStat& st, Rng& rng, const char* lna
         const OsState& os = OSSTATES[(r >> 32) % 5];
         set_os(os);
         set_features(feat);
+        g_cpu.noise = (r >> 41 & 1) ? (r | 2) : 0;
         xs::detail::supported_arch sa = xs::available_architectures();
         report_of(X86 {}, sa, rep);
         int expect = -1;
@@ -362,15 +414,18 @@ static void run_list(xs::arch_list<As...>, OpStat& st, Rng& rng, const char* lna
         if (expect < 0)
             continue; // no member available: the property is silent (the library asserts)
         int calls = 0, which = -1, lv = 5;
-        std::unique_ptr<int> mv(new int(42));
+        int rv_copies = 0, rv_moves = 0, lv_copies = 0, lv_moves = 0;
+        Probe mv(42, &rv_copies, &rv_moves), keep(17, &lv_copies, &lv_moves);
         mark_case("dispatch", lname, &g_cpu, sizeof g_cpu);
         auto d = xs::dispatch<L>(Recorder { &calls, &which });
-        long ret = d(lv, std::move(mv), std::string("abc"), 2.0);
+        long ret = d(lv, std::move(mv), keep, std::string("abc"), 2.0);
         st.evals++;
         st.cell((unsigned)((strhash(lname) & 0x3ff) << 10 | (feat & 0x3ff)));
         long want = 100000 + 42 * 100 + 3 * 10 + 2 + expect * 1000000L;
-        if (calls != 1 || which != expect || ret != want || lv != 12 || mv)
-            viol(st, "unclassified", "{\"list\":\"" + std::string(lname) + "\"," + cfg_json(feat, os) + ",\"calls\":" + std::to_string(calls) + ",\"invoked\":\"" + (which >= 0 ? rows[which].name : "none") + "\",\"first_available\":\"" + rows[expect].name + "\",\"returned\":" + std::to_string(ret) + ",\"expected_return\":" + std::to_string(want) + ",\"lvalue_after\":" + std::to_string(lv) + ",\"moved_from\":" + (mv ? "false" : "true") + "}");
+        // rvalue: moved all the way (no copy); lvalue: copied, never moved from
+        const bool fwd_ok = rv_copies == 0 && rv_moves >= 1 && mv.moved_from && lv_moves == 0 && lv_copies >= 1 && !keep.moved_from && keep.v == 17;
+        if (calls != 1 || which != expect || ret != want || lv != 12 || !fwd_ok)
+            viol(st, "unclassified", "{\"list\":\"" + std::string(lname) + "\"," + cfg_json(feat, os) + ",\"calls\":" + std::to_string(calls) + ",\"invoked\":\"" + (which >= 0 ? rows[which].name : "none") + "\",\"first_available\":\"" + rows[expect].name + "\",\"returned\":" + std::to_string(ret) + ",\"expected_return\":" + std::to_string(want) + ",\"lvalue_after\":" + std::to_string(lv) + ",\"rvalue_arg_copies\":" + std::to_string(rv_copies) + ",\"rvalue_arg_moves\":" + std::to_string(rv_moves) + ",\"lvalue_arg_copies\":" + std::to_string(lv_copies) + ",\"lvalue_arg_moved_from\":" + (keep.moved_from ? "true" : "false") + "}");
         if (st.samples.size() < 3)
             st.samples.push_back("{\"list\":\"" + std::string(lname) + "\"," + cfg_json(feat, os) + ",\"invoked\":\"" + (which >= 0 ? rows[which].name : "none") + "\"}");
     }
